@@ -538,7 +538,7 @@ func main() {
 	sb.WriteString("function, FNV-1a 64 of its body printed without comments and with whitespace collapsed -/\n")
 	sb.WriteString("def exStoreFingerprints : List (String × Nat) := [" + strings.Join(exStoreFingerprints(repo), ", ") + "]\n\n")
 	sb.WriteString("/-- fingerprints of the parser and serializer functions of redis/proto that the model transcribes -/\n")
-	sb.WriteString("def protoFingerprints : List (String × Nat) := [" + strings.Join(protoFingerprints(repo), ", ") + "]\n\n")
+	sb.WriteString("def protoFingerprints : List (String × Nat) := [" + strings.Join(append(protoFingerprints(repo), executorFingerprints(repo, "redis/core_commander.go", []string{"ZREVRANGE", "ZREVRANGEBYSCORE"})...), ", ") + "]\n\n")
 	sb.WriteString("end GoRedis.Generated\n")
 	old, _ := os.ReadFile(out)
 	if string(old) != sb.String() {
@@ -678,6 +678,45 @@ func protoFingerprints(repo string) []string {
 var exStoreWant = map[string]bool{"List.LPop": true, "List.RPop": true, "List.LPush": true, "List.RPush": true, "List.Range": true, "clampRange": true, "List.Index": true,
 		"Set.Add": true, "Set.Rem": true, "ZSet.Add": true, "ZSet.Rem": true, "ZSet.Range": true, "ZSet.RangeByScore": true, "limitZSetMembers": true,
 		"reverseZSetMembers": true, "ZSet.Score": true, "ZSet.IncBy": true}
+
+// executorFingerprints: the closures registered for the given commands (RegisterExexutor("NAME", func...)), printed and
+// hashed like the functions above.
+func executorFingerprints(repo string, file string, cmds []string) []string {
+	fset := token.NewFileSet()
+	f, err := parser.ParseFile(fset, filepath.Join(repo, file), nil, 0)
+	if err != nil {
+		fmt.Fprintln(os.Stderr, "extract: cannot parse", file, err)
+		os.Exit(1)
+	}
+	var out []string
+	for _, cmd := range cmds {
+		ast.Inspect(f, func(n ast.Node) bool {
+			c, ok := n.(*ast.CallExpr)
+			if !ok || len(c.Args) != 2 {
+				return true
+			}
+			if sel, ok := c.Fun.(*ast.SelectorExpr); !ok || sel.Sel.Name != "RegisterExexutor" {
+				return true
+			}
+			l, ok := c.Args[0].(*ast.BasicLit)
+			fl, ok2 := c.Args[1].(*ast.FuncLit)
+			if !ok || !ok2 || l.Value != fmt.Sprintf("%q", cmd) {
+				return true
+			}
+			var buf strings.Builder
+			printer.Fprint(&buf, fset, fl.Body)
+			text := strings.Join(strings.Fields(buf.String()), " ")
+			h := uint64(14695981039346656037)
+			for i := 0; i < len(text); i++ {
+				h = (h ^ uint64(text[i])) * 1099511628211
+			}
+			out = append(out, fmt.Sprintf("(%q, %d)", "executor "+cmd, h))
+			return true
+		})
+	}
+	sort.Strings(out)
+	return out
+}
 
 func fingerprints(repo string, dir string, bases []string, want map[string]bool) []string {
 	var out []string
